@@ -224,8 +224,22 @@ func (s *Sim) newTask(inc int, name string) *Task {
 
 type fatalExit struct{ msg string }
 
-// FatalExit is what the zap fatal hook panics with: "the process called os.Exit".
-func FatalExit(msg string) { panic(fatalExit{msg}) }
+// FatalExit is what the zap fatal hook (and os.Exit) call: "the process exits
+// now". It records the exit, kills the incarnation and never returns (the
+// calling task is parked for ever), so no recover() in the program can undo it.
+//
+//go:norace
+func FatalExit(msg string) {
+	s := S
+	t := Cur()
+	if s == nil || t == nil {
+		panic(fatalExit{msg})
+	}
+	rec := PanicRec{Task: t.Name, Inc: t.Inc, Step: s.Steps, Now: s.now, Fatal: true, Value: CloneString(msg), Stack: CloneString(string(debug.Stack()))}
+	call(func() { s.recordPanic(rec) })
+	// unreachable: recordPanic killed this task's incarnation
+	select {}
+}
 
 type killedSentinel struct{}
 
